@@ -2,11 +2,15 @@ SPECIFICATION Spec
 CONSTANTS
   Streams <- MCStreams
   Full = FALSE
-  RBufs = {0, 64, 1024}
+  RBufs = {0, 1, 64, 124, 1024}
   HSizes = {16, 256, 257, 4096}
   ClientRBufs = {0, 1, 200, 1024}
   RespLen = 129
+  CtlStreams <- MCCtlStreams
+  CtlRBufs = {1, 16, 64, 124, 125, 126}
+  CtlHSizes = {16, 4096}
+  CtlClientRBufs = {1, 16, 124}
   ScrubProto = TRUE
 CONSTRAINT Emit
-INVARIANTS InvNoLossNoReorder InvNoOverRead
+INVARIANTS InvNoLossNoReorder InvNoOverRead InvControlFits
 CHECK_DEADLOCK FALSE
